@@ -11,15 +11,15 @@ from __future__ import annotations
 
 import numpy as np
 
-from .. import gens, rt
+from .. import forms, gens, rt
 from ..common import Skip, brief
 
 ID = "C10"
 CASES = {"quick": 2400, "thorough": 30000}
 FLOOR = {"quick": 1800, "thorough": 22000}
 FLOOR_COUNTERS = {
-    "quick": {"alphas_judged": 9000, "fold_captures": 1800, "rank_deficient_fits": 350, "r2_fits": 400, "explicit_cv_fits": 400, "n_jobs_2_fits": 10, "one_dimensional_targets": 200, "estimators_with_a_past": 700},
-    "thorough": {"alphas_judged": 110000, "fold_captures": 22000, "rank_deficient_fits": 4000, "r2_fits": 5000, "explicit_cv_fits": 5000, "n_jobs_2_fits": 100, "one_dimensional_targets": 2500, "estimators_with_a_past": 9000},
+    "quick": {"alphas_judged": 9000, "fold_captures": 1800, "rank_deficient_fits": 350, "r2_fits": 400, "explicit_cv_fits": 400, "n_jobs_2_fits": 10, "one_dimensional_targets": 200, "estimators_with_a_past": 700, "integer_typed_features": 150, "non_default_containers": 1000, "configured_by:set_params": 200, "configured_by:setattr": 200, "configured_by:clone": 200},
+    "thorough": {"alphas_judged": 110000, "fold_captures": 22000, "rank_deficient_fits": 4000, "r2_fits": 5000, "explicit_cv_fits": 5000, "n_jobs_2_fits": 100, "one_dimensional_targets": 2500, "estimators_with_a_past": 9000, "integer_typed_features": 2000, "non_default_containers": 12000, "configured_by:set_params": 2500, "configured_by:setattr": 2500, "configured_by:clone": 2500},
 }
 RULE = (
     "case = X (tall / wide / exactly rank-deficient through duplicated or combined columns / column-scaled; largest "
@@ -54,6 +54,12 @@ def gen(rng, tier, index):
         X = X * 10.0 ** rng.uniform(-2, 2, size=m)
     s1 = np.linalg.svd(X, compute_uv=False)[0]
     X = X / s1 * float(10.0 ** rng.uniform(-2, 3))
+    xint = None
+    if rng.random() < 0.15:  # whole-number features (counts), handed over with an integer dtype
+        X = np.round(X / float(np.abs(X).max()) * 60.0)
+        if np.linalg.matrix_rank(X) == min(X.shape) or shape == "deficient":
+            xint = gens.pick(rng, ("int64", "int32"))
+        X = X * 1.0
     p = int(gens.pick(rng, (1, 2, 3)))
     W = rng.normal(size=(m, p))
     Y = X @ W
@@ -96,6 +102,10 @@ def gen(rng, tier, index):
         "scoring": gens.pick(rng, SCORERS),
         "cv": cv,
         "n_jobs": 2 if rng.random() < 0.012 else None,
+        "xint": xint,
+        "how": gens.pick(rng, forms.CONFIGURE),
+        "xform": gens.pick(rng, forms.PRESENT),
+        "yform": gens.pick(rng, forms.PRESENT),
         "past": bool(rng.random() < 0.4),  # the estimator object has been fitted before, with another configuration
         "pseed": int(rng.integers(1 << 30)),
         "Z": rng.normal(size=(5, m)) * float(np.abs(X).std()),
@@ -196,7 +206,13 @@ def run(case, j):
         j.note("estimators_with_a_past")
         j.tag("history:refit-after-set_params")
     else:
-        est = Ridge2FoldCV(**params)
+        est = forms.configure(Ridge2FoldCV, params, case.get("how", "ctor"), j=j)
+    Xin = X.astype(case["xint"]) if case.get("xint") else X
+    Xin, Yin = forms.present(Xin, case.get("xform", "C")), forms.present(Yin, case.get("yform", "C"))
+    if case.get("xint"):
+        j.note("integer_typed_features")
+    if case.get("xform", "C") != "C":
+        j.note("non_default_containers")
     seen = {}
 
     def pre(self, a, k):
@@ -204,7 +220,7 @@ def run(case, j):
 
     cnt = [0]
     with rt.hook_method(Ridge2FoldCV, "_2fold_cv", pre=pre, counter=cnt):
-        j.lib("fit", est.fit, X, Yin)
+        j.lib("fit", est.fit, Xin, Yin)
     if case["n_jobs"] == 2:
         j.note("n_jobs_2_fits")
     # ---- folds
